@@ -2398,8 +2398,15 @@ class MOFWBEMConnection(BaseRepositoryConnection):
                                 namespace=ns,
                                 LocalOnly=False,
                                 IncludeQualifiers=True)
-            inst.path = CIMInstanceName.from_instance(
-                cls, inst, namespace=ns)
+            try:
+                inst.path = CIMInstanceName.from_instance(
+                    cls, inst, namespace=ns)
+            except (ValueError, TypeError) as exc:
+                raise CIMError(
+                    CIM_ERR_INVALID_PARAMETER,
+                    _format("Cannot create instance path for instance of "
+                            "class {0!A}: {1}", inst.classname, exc),
+                    conn_id=self.conn_id)
 
         if "Abstract" in cls.qualifiers:
             warnings.warn(
